@@ -489,10 +489,10 @@ class AbstractInversion:
             if self.settings.force_edge_pixels_to_zeros:
                 if self.settings.force_edge_image_pixels_to_zeros:
                     ids_zeros = np.unique(
-                        np.append(
-                            self.mapper_edge_pixel_list, self.mapper_zero_pixel_list
+                        np.concatenate(
+                            [self.mapper_edge_pixel_list, *self.mapper_zero_pixel_list]
                         )
-                    )
+                    ).astype("int")
                 else:
                     ids_zeros = self.mapper_edge_pixel_list
 
